@@ -71,6 +71,39 @@ SHAPES["L250"] = [("a" * 250,), ("d" * 250, "b" * 250), ("a" * 249 + "b",),
                   ("e",)]
 
 
+# File names near NAME_MAX (255 bytes on Linux file systems): the lengths on
+# both sides of the margins a writer needs when it derives a sibling name
+# from the final one ("<name>.part" = +5, "<name>.<8 chars>.part" = +14).
+LONG_NAME_LENGTHS = (241, 242, 250, 251, 255)
+
+
+def long_name(nbytes, enc, tag="a"):
+    """A file name of exactly nbytes bytes in UTF-8: enc 'a' = ASCII, 'u' =
+    three-byte characters (CJK) filled up with ASCII; tag (one ASCII
+    character) distinguishes names of the same length."""
+    if enc == "a":
+        s = tag + "n" * (nbytes - 1)
+    else:
+        k = (nbytes - 1) // 3
+        s = tag + "日" * k + "x" * (nbytes - 1 - 3 * k)
+    if len(s.encode("utf-8")) != nbytes or nbytes > 255:
+        raise AssertionError("long_name length")
+    return s
+
+
+for _n in LONG_NAME_LENGTHS:
+    for _e in "au":
+        # LN<n><enc>: a long-named file at the top, one in a sub-directory,
+        # a short-named neighbour; LNS<n><enc>: the same name as a
+        # single-file torrent's name (see long_root_name)
+        SHAPES[f"LN{_n}{_e}"] = [(long_name(_n, _e, "a"),),
+                                 ("d", long_name(_n, _e, "b")), ("e",)]
+
+
+def long_root_name(nbytes, enc):
+    return long_name(nbytes, enc, "r")
+
+
 # Contents whose digests happen to be well-formed UTF-8 text: a bencode
 # decoder that hands text-like byte strings back as `str` answers differently
 # for these hash fields than for (almost) all others.  Found by a plain
